@@ -82,7 +82,7 @@ class MappedText:
 # ------------------------------------------------------------------------------------------------
 def parse_vspec(path):
     spec = dict(unit=None, source=None, props_safety=[], props_internal=[], result='res', attrs=[],
-                requires=[], ensures=[], decreases=None, implextra=[], aftereach=[], entry=None, loops={}, closures={}, ats=[],
+                requires=[], ensures=[], decreases=None, implextra=[], aftereach=[], regions=[], entry=None, loops={}, closures={}, ats=[],
                 subs=[], sigsubs=[], path=path, notes=[])
     cur = None
 
@@ -112,6 +112,12 @@ def parse_vspec(path):
                 raise SliceError('%s: bad after-each line: %s' % (path, rest))
             cur = dict(rx=m.group(1), text=m.group(2))
             spec['aftereach'].append(cur)
+        elif key == 'region':
+            m = re.match(r'\s*/((?:[^/\\]|\\.)*)/\s*(.*)$', rest)
+            if not m:
+                raise SliceError('%s: bad region line: %s' % (path, rest))
+            spec['regions'].append(dict(rx=m.group(1), props=m.group(2).split()))
+            cur = None
         elif key == 'implextra':
             cur = dict(text=rest.strip())
             spec['implextra'].append(cur)
@@ -551,6 +557,12 @@ class Weaver:
             if i < 0:
                 raise SliceError('%s: internal: placeholder %d lost' % (unit, k))
             mt.replace(i, i + len(ph), holders[k], woven=True)
+        # regions: attribute a failing exit to the properties of the arm it lies in
+        regions = []
+        for rg in spec['regions']:
+            m = re.search(rg['rx'], mt.text)
+            if m:
+                regions.append((mt.text.count('\n', 0, m.start()), rg['props'], rg['rx']))
         w.emit('    {')
         if spec['entry']:
             w.emit(spec['entry']['text'])
@@ -562,7 +574,8 @@ class Weaver:
         w.units.append(dict(unit=unit, mode=mode, file=file, item=' :: '.join(segs), src_line=sig_first,
                             sha256=S.sha(it['start'], it['end']), line_start=unit_start, line_end=w.lineno,
                             body_start=body_start, rules=log, props_safety=spec['props_safety'],
-                            props_internal=spec['props_internal'], fn=it['name'], notes=spec['notes']))
+                            props_internal=spec['props_internal'], fn=it['name'], notes=spec['notes'],
+                            regions=sorted([(body_start + ln, pr, rx) for ln, pr, rx in regions])))
 
 
 def main():
